@@ -21,7 +21,9 @@ CHECKS = {
                 text="The real operators (| & - ^ ~ + * unary -, nested expressions) executed under SYMX with one operand translated by a symbolic amount; "
                      "the explored path conditions partition the parameter range, and on every cell z3 decides, with the query point free, that the region "
                      "denoted by the returned shape equals the Boolean combination of the operand regions off their boundaries; raising / non-returning "
-                     "paths are violations where z3 finds a parameter with transversal boundaries. Witnesses and counterexamples replayed on the plain library.",
+                     "paths are violations where z3 finds a parameter with transversal boundaries. Witnesses and counterexamples replayed on the plain library. "
+                     "Operands with quadratic sides: 20 concrete placements x 4 operators on the unstubbed library, z3 (QF_NRA) decides over all points of the plane that the region "
+                     "bounded by the returned pieces is the Boolean combination (exact cap oracle), result chains closed, operands unchanged as regions.",
                 technique="symbolic execution of the real code (SYMX) + z3 per path cell, free query point, counterexample replay"),
     "C05": dict(level="model_checking", design="4/C05",
                 text="Operators and the real integrator executed under SYMX on symbolically translated operands; the inclusion-exclusion identities "
@@ -30,7 +32,8 @@ CHECKS = {
     "C06": dict(level="model_checking", design="4/C06",
                 text="Per path cell of the operator explorations z3 decides well-formedness of the returned shape for all parameter values: no zero-length "
                      "piece, no zero-area curve, no crossing among result edges, Connected/Disjoint structure (holes inside outer and apart; components disjoint, "
-                     "query point free), kind of ~result per the documented table, junction sharing; the five singleton laws on symbolically translated catalogue shapes.",
+                     "query point free), kind of ~result per the documented table, junction sharing; the five singleton laws on symbolically translated catalogue shapes; "
+                     "the same structure obligations for results with quadratic sides (concrete placements, query point free, QF_NRA).",
                 technique="symbolic execution of the real code (SYMX) + z3 structural obligations per path cell"),
     "C13": dict(level="model_checking", design="4/C13",
                 text="Kind tracking in SYMX: on every path of the operator/intersection/integral/move/scale explorations no Python float may have entered "
@@ -40,12 +43,14 @@ CHECKS = {
     "C03": dict(level="model_checking", design="4/C03",
                 text="Real `B(t) in A`, `A in B(t)`, contains_jordan(J(t), flag) under SYMX for all kind pairs; per path cell z3 decides: answer True => no point "
                      "of the inner region/curve outside the outer one (query point / curve parameter free); answer False => (quantified LRA) no parameter of the cell at "
-                     "which everything is contained. Replays decide the exact subset relation at the witness by an existential z3 query over the concrete polygons.",
+                     "which everything is contained. Replays decide the exact subset relation at the witness by an existential z3 query over the concrete polygons. "
+                     "Shapes with quadratic sides (concrete placements): the escape query exists p in inner minus outer decided over all points (QF_NRA).",
                 technique="symbolic execution of the real code (SYMX) + z3 (QF_LRA and quantified LRA) per path cell, counterexample replay"),
     "C14": dict(level="model_checking", design="4/C14",
                 text="Real JordanCurve.intersection (all flag combinations), swapped operands and A & B under SYMX on polygon pairs with one curve translated symbolically; "
                      "per path cell z3 decides ranges, common-point identities, completeness w.r.t. the proper-crossing predicate of every edge pair, the (None, None) "
-                     "encoding, swap symmetry and exact flag filtering.",
+                     "encoding, swap symmetry and exact flag filtering. Curves with quadratic pieces (concrete placements): completeness decided over all parameter pairs "
+                     "(exists (u,v): A_i(u) = B_j(v) away from every reported tuple must be unsat, QF_NRA), reported tuples evaluated exactly.",
                 technique="symbolic execution of the real code (SYMX) + z3 per path cell (polynomial identities, orientation predicates)"),
     "C18": dict(level="model_checking", design="4/C18",
                 text="PlanarCurve evaluation, all derivatives and split executed under SYMX with every control point, the parameter and the split nodes symbolic "
